@@ -575,6 +575,7 @@ func c18LingeringResponse(u *vfUnit, e *c18Env) {
 		// the peer ends its sending side; the server may or may not return from Serve before its response is read
 		ce.CloseWrite()
 		w1, _ := vfAwait(srv.done, 5*time.Second)
+		vfCapFired.Store(false) // (this wait is a pause, not a question: none of its outcomes is reported)
 		if w1 == vfDone {
 			u.Count("serve_returned_with_a_response_unread", 1)
 		}
